@@ -1070,6 +1070,12 @@ def gen_est(rng, kind=None, small=False):
         case["us"] = [[rng.randint(0, 63) for _ in range(B)] for _ in range(N)]
         while not _imh_margin_ok(case):
             case["us"] = [[rng.randint(0, 63) for _ in range(B)] for _ in range(N)]
+        if not case["same"]:  # a zero-density proposal met by u = 0 (log u = -inf): must still be rejected
+            off = 0 if case["given"] is not None else 1
+            for n_ in range(N):
+                for j in range(B):
+                    if case["w"][j][case["draws"][off + n_][j]] == 0 and rng.random() < 0.5:
+                        case["us"][n_][j] = 0
     return case
 
 
